@@ -31,6 +31,8 @@ type Session struct {
 	hs            *noise.HandshakeState
 	initHelloTime tai64.TAI64N
 	remoteKey     publicKey
+	// lastIn is the last handshake message which advanced the state.
+	lastIn []byte
 
 	// ciphers
 	cipherOut, cipherIn noise.Cipher
@@ -108,17 +110,21 @@ func (s *Session) Deliver(out []byte, incoming []byte, now time.Time) (bool, []b
 	nonce := msg.GetNonce()
 	switch nonce {
 	case 0, 1, 2, 3:
-		if !s.isInit && nonce == nonceInitHello && s.hsIndex > 0 && !bytes.Equal(msg, s.msgCache[0]) {
-			// an InitHello other than the one this session was created from belongs to another handshake.
-			return false, nil, errors.New("InitHello not for this session")
-		}
+		before := s.hsIndex
 		if err := s.readHandshake(msg); err != nil {
 			return false, nil, errors.Wrapf(err, "processing handshake message")
 		}
-		if uint8(nonce)+1 != s.hsIndex {
+		if s.hsIndex != before {
+			// msg advanced the handshake; remember it to recognize retransmissions.
+			s.lastIn = append(s.lastIn[:0], msg...)
+		} else if uint8(nonce)+1 != s.hsIndex {
 			// Only the message immediately preceding our current handshake message is answered (retries).
 			// Answering anything else lets two sessions of different handshakes echo each other forever.
 			return false, nil, nil
+		} else if !bytes.Equal(msg, s.lastIn) {
+			// A retransmission is byte-identical. Anything else of that type belongs to another
+			// handshake (a rekey or a restarted peer) and must reach the session it is meant for.
+			return false, nil, errors.New("handshake message not for this session")
 		}
 		return false, s.writeHandshake(out), nil
 	default:
@@ -247,7 +253,6 @@ func (s *Session) readHandshake(msg Message) error {
 		}
 		s.remoteKey = res.RemoteKey
 		s.initHelloTime = res.Timestamp
-		s.msgCache[0] = append([]byte{}, msg...)
 		s.msgCache[1] = res.RespHello
 		s.cipherOut, s.cipherIn = res.CipherOut, res.CipherIn
 		s.hsIndex = 1
